@@ -20,7 +20,7 @@ use std::sync::{Arc, Barrier};
 
 pub const ID: &str = "C13";
 
-pub const RULE: &str = "cases = (grammar, pool of 3 inputs, history). Grammars: C01/C02/C08/C11 classes (recovery, validate emitters, memoized, recursive, internal Box/Rc/Arc/Either/boxed wrappers) built by the dynamic builder, plus a hand-written catalogue of statically typed parsers (text::*, regex, pratt, memoized, recovery, labelled). Pool: 3 of 6 generated inputs, chosen to mix accepted, rejected and recovered ones. A history is a list of steps (handle, input, parse|check); handles are derived ONCE from one parser value and kept for the whole history: the original, p.clone(), &p, Box::new, Rc::new, Arc::new, .boxed(), .boxed().boxed(), Either::Left, Either::Right, a DEEP clone (the grammar rebuilt with every node's concrete combinator replaced by its own .clone(), so every combinator's hand-written Clone impl is on the path), and Cache::get() at a fresh lifetime per step where the input text is written into ONE reused buffer (same address for every step). Per (grammar, pool): all 3^3 (quick) / 3^4 (thorough) input orders with handle and mode cycling, plus random histories of 6 steps. Oracle: the result of every step (has_output, output, every error with span / found / expected / message, and the Inspector state) equals the result a FRESH parser built from the same grammar gives on that input. Threads: every Send + Sync catalogue parser behind one Arc<dyn Parser + Send + Sync>, and a Cache shared by reference, used by 2, 4 and 8 threads that each run a generated list of (input, parse|check) 50 (quick) / 400 (thorough) times behind a start barrier; every result must equal the sequential one (real threads: the schedule is the OS's, sampled not enumerated). NON-TRIVIAL = a failing or recovering parse precedes a succeeding one on the same handle, or two different handles are interleaved on the same input; distinct by (grammar, pool, history).";
+pub const RULE: &str = "cases = (grammar, pool of 3 inputs, history). Grammars: C01/C02/C08/C11 classes (recovery, validate emitters, memoized, recursive, internal Box/Rc/Arc/Either/boxed wrappers) built by the dynamic builder, plus a hand-written catalogue of statically typed parsers (text::*, regex, pratt, memoized, recovery, labelled). Pool: 3 of 6 generated inputs, chosen to mix accepted, rejected and recovered ones. A history is a list of steps (handle, input, parse|check); handles are derived ONCE from one parser value and kept for the whole history: the original, p.clone(), &p, Box::new, Rc::new, Arc::new, .boxed(), .boxed().boxed(), Either::Left, Either::Right, a DEEP clone (the grammar rebuilt with every node's concrete combinator replaced by its own .clone(), so every combinator's hand-written Clone impl is on the path), and Cache::get() at a fresh lifetime per step where the input text is written into ONE reused buffer (same address for every step). Per (grammar, pool): all 3^3 (quick) / 3^4 (thorough) input orders with handle and mode cycling, plus random histories of 6 steps. Oracle: the result of every step (has_output, output, every error with span / found / expected / message, and the Inspector state) equals the result a FRESH parser built from the same grammar gives on that input. Threads: every Send + Sync catalogue parser behind one Arc<dyn Parser + Send + Sync>, and a Cache shared by reference, used by 2, 4 and 8 threads that each run a generated list of (input, parse|check) 50 (quick) / 400 (thorough) times behind a start barrier; every result must equal the sequential one (real threads: the schedule is the OS's, sampled not enumerated). Configurable parsers configured through a reference ((&just).configure, (&repeated).configure) against by-value use, parse / check / value-free positions, on every string over {a b} up to length 6 / 8. NON-TRIVIAL = a failing or recovering parse precedes a succeeding one on the same handle, or two different handles are interleaved on the same input; distinct by (grammar, pool, history).";
 
 pub const ASSUMPTIONS: &[&str] = &[
     "a parser freshly built from the same grammar is the model (C01..C12 tie it to the reference semantics)",
@@ -210,7 +210,26 @@ fn mk_case(sub: &str, g: &G, pool: &[String], steps: &[Step]) -> Case {
     c
 }
 
+/// wrapper independence for CONFIGURABLE parsers: `(&p).configure(..)` (the ConfigParser / ConfigIterParser impls for
+/// references) must give what `p.configure(..)` gives, in parse, check and value-free positions (C15's static family)
+fn byref_cfg_case(cs: &[char], l: &mut Local) -> CaseRes {
+    let s: String = cs.iter().collect();
+    for (name, by_ref, by_value) in super::c15::byref_cfg_family(&s) {
+        l.evals += 4;
+        l.bump("configure_through_a_reference_comparisons");
+        if by_ref != by_value {
+            let mut c = Case::new(ID, "byref-configure", &G::Empty, cs);
+            c.extra = serde_json::json!({ "template": name });
+            return Err((c, Fail::new("C13/configure-through-a-reference", format!("{}: through the reference: {} -- by value: {}", name, by_ref, by_value))));
+        }
+    }
+    Ok(())
+}
+
 pub fn check_case(case: &Case, l: &mut Local) -> Result<(), Fail> {
+    if case.sub == "byref-configure" {
+        return byref_cfg_case(&case.toks(), l).map_err(|(_, f)| f);
+    }
     if case.sub.starts_with("catalogue") {
         let name = case.extra.get("parser").and_then(|v| v.as_str()).unwrap_or("").to_string();
         return catalogue_history(&name, &case.input, l).map_err(|(_, f)| f);
@@ -617,6 +636,17 @@ pub fn run(tier: Tier, seed: u64) -> i32 {
         l.note(&g, &toks, "random-history", nt, || format!("pool {:?}, history {:?}", pool, steps.iter().map(|s| format!("{}:{}{}", HANDLES[s.h as usize % NH], s.i, if s.check { "c" } else { "p" })).collect::<Vec<_>>()));
         Ok(())
     });
+    // configurable parsers configured through a reference, every short string
+    {
+        let strings = all_strings(&['a', 'b'], ctx.pick(6, 8));
+        let chunks: Vec<&[Vec<char>]> = strings.chunks(32).collect();
+        ctx.par_jobs(&chunks, |chunk, l| {
+            for cs in chunk.iter() {
+                byref_cfg_case(cs, l)?;
+            }
+            Ok(())
+        });
+    }
     // catalogue: single-threaded histories
     let names: Vec<&'static str> = CATALOGUE.to_vec();
     ctx.par_jobs(&names, |name, l| catalogue_history(name, "", l));
